@@ -140,6 +140,12 @@ def handle (cmd : String) (args : List String) : Option String :=
         let (cols, left) ← parseCols k.toNat r'
         if left.isEmpty ∧ k ≥ 0 then pure (optInt (itemDelta cols coords)) else none
       | [] => none
+    -- `glyf.points total nDataBytes flagBytes…`: the number of points `SimpleGlyph::points()` yields
+    -- (0 = rejected: resolve_coords_len returned Err or the data is shorter than the resolved lengths)
+    | "glyf.points", total :: nData :: bytes => some (match resolveCoordsLen bytes total with
+        | none => "trap"
+        | some none => "0"
+        | some (some (f, x, y)) => if f + x + y > nData then "0" else toString total)
     -- `dsim.get entryFormat mapCount index nBytes b0 b1 …`
     | "dsim.get", ef :: mc :: ix :: n :: bytes =>
       if bytes.length = n.toNat ∧ n ≥ 0 then
